@@ -10,6 +10,7 @@
 From JV Require Import Sem Gen.
 From JV Require Import Hand.Text Hand.Lexopt Hand.Json Hand.Cli.
 From JV Require Import Proofs.LexoptProofs Proofs.CliProofs.
+Require JV.Proofs.CliCore.
 Open Scope Z_scope.
 
 (* No panic, for ANY argument vector (arbitrary bytes), any version text, any oracle for non-ASCII letters:
@@ -121,3 +122,12 @@ Proof. vm_compute. reflexivity. Qed.
 (* the hypothesis on the clock is satisfiable, and the clock is used when there is no argument *)
 Example C19_ex_now : now_in_range ex_now /\ cli_main_exec ex_version ex_now [] = Ret (Exit0 [codes "2026-09-21 = JDN 2461305"]).
 Proof. split; [unfold now_in_range, ex_now; lia | vm_compute; reflexivity]. Qed.
+
+(* ---- C19_total with [LibTotal] discharged by the core development (Proofs/CliCore.v: lib_total — reforming, at_jdn,
+   at_ymd and at_ordinal_date never panic on any calendar the command can construct): no panic for ANY argument
+   vector.  The one remaining premise is environmental: the system clock lies in the supported range. *)
+Theorem C19_total_closed :
+  forall (alpha : Z -> bool) (version : list Z) (now : Z) (argv : list (list Z)),
+    now_in_range now -> exists out, cli_main alpha version now argv = Ret out.
+Proof. exact JV.Proofs.CliCore.cli_main_total_closed. Qed.
+Print Assumptions C19_total_closed.
